@@ -262,6 +262,9 @@ func (w *world) exec(o op) (extra string, res string, touched []int) {
 	defer func() {
 		if r := recover(); r != nil {
 			res = "panic"
+			if o.k == "B" {
+				extra = "\t-1"
+			}
 		}
 	}()
 	res = "-"
@@ -369,6 +372,7 @@ type gen struct {
 	w     *world
 	class string
 	dead  bool
+	exh   map[int]int // consecutive budget errors per back-offer
 }
 
 func (g *gen) do(o op) string {
@@ -432,7 +436,13 @@ func (g *gen) backoff(i int, k int) string {
 		m = perCall[g.r.Intn(len(perCall))]
 	}
 	g.w.errSeq++
-	return g.do(op{k: "B", a: i, b: k, c: m, d: g.w.errSeq})
+	res := g.do(op{k: "B", a: i, b: k, c: m, d: g.w.errSeq})
+	if strings.HasPrefix(res, "ok") {
+		g.exh[i] = 0
+	} else {
+		g.exh[i]++
+	}
+	return res
 }
 
 func (g *gen) newVars() int {
@@ -472,6 +482,27 @@ func (g *gen) randomOp() {
 		return
 	}
 	x := r.Intn(100)
+	if g.exh[i] >= 2 && r.Intn(4) != 0 { // do not dwell on an exhausted / cancelled back-offer
+		switch r.Intn(5) {
+		case 0:
+			g.do(op{k: "R", a: i})
+			g.exh[i] = 0
+			return
+		case 1:
+			if w.boVars[i] >= 0 {
+				g.do(op{k: "RM", a: i, b: budgets[r.Intn(len(budgets))]})
+				g.exh[i] = 0
+				return
+			}
+		case 2:
+			if len(w.bos) < 10 {
+				g.newRoot()
+				return
+			}
+		default:
+			x = 55 + r.Intn(45) // any non-back-off op
+		}
+	}
 	treeish := g.class == "tree" || g.class == "directed11" || g.class == "cancelkill"
 	switch {
 	case x < 55 || (!treeish && x < 75):
@@ -568,7 +599,7 @@ func runSeq(seq int, class string, seed int64, nops int) {
 	}
 	retry.VerifSetExcluded("tikvServerBusy", lim)
 	startSeq(seq, class)
-	g := &gen{r: r, w: newWorld(), class: class}
+	g := &gen{r: r, w: newWorld(), class: class, exh: map[int]int{}}
 	if class == "directed11" {
 		g.directed11()
 		nops = 4
